@@ -522,7 +522,8 @@ func (m *observerManager) Reset() {
 		return
 	}
 
-	for i := range m.maxEventType + 1 {
+	// Loop over int, as maxEventType+1 overflows uint8 for the highest event type.
+	for i := 0; i <= int(m.maxEventType); i++ {
 		if !m.hasObservers[i] {
 			continue
 		}
